@@ -71,43 +71,51 @@ def run_graph(order, fields, present, use_names, wrap=None):
             schema[f] = {'default_setter': name if (use_names and name in pool.SETTER_NAMES) else counting_setter(name)}
     doc = {f: present[f] for f in order if f in present}
     # the same graph inside a sub-document (a dict field, or a dict item of a list): resolved by a child validator
+    cfg = {}
     if wrap == 'dict':
         schema, doc = {'sub': {'type': 'dict', 'schema': schema}}, {'sub': doc}
     elif wrap == 'list':
         schema, doc = {'rows': {'type': 'list', 'schema': {'type': 'dict', 'schema': schema}}}, {'rows': [{'zz': 1}, doc]}
         schema['rows']['schema']['schema'] = dict(schema['rows']['schema']['schema'], zz={})
-    v = pool.PoolValidator(schema)
+    elif wrap == 'values':
+        schema, doc = {'table': {'type': 'dict', 'valuesrules': {'type': 'dict', 'schema': schema}}}, {'table': {'k': doc}}
+    elif wrap == 'items':
+        schema, doc = {'pair': {'type': 'list', 'items': [{'type': 'integer'}, {'type': 'dict', 'schema': schema}]}}, {'pair': [1, doc]}
+    elif wrap == 'unknown':
+        cfg = {'allow_unknown': {'type': 'dict', 'schema': schema}}
+        schema, doc = {'known': {}}, {'extra': doc}
+    v = pool.PoolValidator(schema, **cfg)
     CALLS[0] = 0
     out = v.normalized(copy.deepcopy(doc), always_return_document=True)
     errs = v._errors
-    if wrap == 'dict':
-        out = out['sub']
-    elif wrap == 'list':
-        errs = [e for e in errs if tuple(e.document_path[:2]) == ('rows', 1)]
-        out = out['rows'][1]
-    return schema, doc, out, errs, CALLS[0]
+    inner = {'dict': ('sub',), 'list': ('rows', 1), 'values': ('table', 'k'), 'items': ('pair', 1), 'unknown': ('extra',)}.get(wrap, ())
+    if inner:
+        errs = [e for e in errs if tuple(e.document_path[:len(inner)]) == inner]
+        for k in inner:
+            out = out[k] if out is not None else None
+    return schema, doc, out, errs, CALLS[0], cfg
 
 
 def check_graph(order, fields, present, use_names=False, wrap=None):
     n = len([f for f in fields if fields[f] is not None])
     try:
-        schema, doc, out, errs, calls = run_graph(order, fields, present, use_names, wrap)
+        schema, doc, out, errs, calls, cfg = run_graph(order, fields, present, use_names, wrap)
     except Exception as e:
         return "normalized() raised %r" % (e,), None
     resolved, failed, circular = expected(fields, present)
     if out != resolved:
-        return "result %r != least fixpoint %r" % (out, resolved), (schema, doc)
+        return "result %r != least fixpoint %r" % (out, resolved), (schema, doc, cfg)
     got = collections.Counter(e.document_path[-1] for e in errs if e.code == 0x64)
     if any(e.code != 0x64 for e in errs) or got != collections.Counter(list(failed) + list(circular)):
-        return "default-setting errors for %r, expected for failed %r + circular %r" % (sorted(got.elements()), sorted(failed), sorted(circular)), (schema, doc)
+        return "default-setting errors for %r, expected for failed %r + circular %r" % (sorted(got.elements()), sorted(failed), sorted(circular)), (schema, doc, cfg)
     for e in errs:
         f = e.document_path[-1]
         circ = 'Circular' in str(e.info[0])
         if circ != (f in circular):
-            return "field %r: circular-dependency message %r but expected %s" % (f, circ, "circular" if f in circular else "own failure"), (schema, doc)
-    if wrap != 'list' and calls > n * (n + 1) + 1:      # (in a list the other rows run their setters too)
-        return "%d setter calls for %d setters (bound n(n+1)+1)" % (calls, n), (schema, doc)
-    return None, (schema, doc)
+            return "field %r: circular-dependency message %r but expected %s" % (f, circ, "circular" if f in circular else "own failure"), (schema, doc, cfg)
+    if wrap not in ('list',) and calls > n * (n + 1) + 1:      # (in a list the other rows run their setters too)
+        return "%d setter calls for %d setters (bound n(n+1)+1)" % (calls, n), (schema, doc, cfg)
+    return None, (schema, doc, cfg)
 
 
 def all_specs(names, small):
@@ -133,7 +141,7 @@ def run(ctx):
 
     def one(order, fields, present, tag):
         nonlocal cases
-        wrap = rng.choice([None, None, None, None, None, None, 'dict', 'list'])
+        wrap = rng.choice([None] * 10 + ['dict', 'list', 'values', 'items', 'unknown'])
         d, sd = check_graph(order, fields, present, use_names=rng.random() < 0.3, wrap=wrap)
         cases += 1
         dist[tag] += 1
@@ -142,12 +150,12 @@ def run(ctx):
             if d:
                 d = "(graph inside a %s sub-document) " % wrap + d
         if d:
-            violations.append({"signature": "lfp:" + d.replace("(graph inside a dict sub-document) ", "").replace("(graph inside a list sub-document) ", "").split(" ")[0], "what": d,
+            violations.append({"signature": "lfp:" + d.split("sub-document) ")[-1].split(" ")[0], "what": d,
                                "replay": {"order": list(order), "fields": {k: (list(v[0:1]) + [list(v[1])] if v else None) for k, v in fields.items()},
-                                          "present": present}})
+                                          "present": present, "wrap": wrap}})
         if sd and len(model_lines) < (20000 if thorough else 1500 * ctx.get('scale', 1)) and rng.random() < 0.2:
             try:
-                model_lines.append(nrun.encode(sd[0], {}, sd[1], False, "normalized", "c"))
+                model_lines.append(nrun.encode(sd[0], sd[2], sd[1], False, "normalized", "c"))
                 model_jobs.append(sd)
             except ValueError:
                 pass
@@ -191,13 +199,13 @@ def run(ctx):
     # model correspondence on a sample of the same graphs
     dis = 0
     if ctx["driver_ok"] and model_lines:
-        for (schema, doc), m in zip(model_jobs, common.run_driver_parallel(model_lines)):
-            r = nrun.real_api(schema, {}, doc, False, "normalized")
+        for (schema, doc, cfg), m in zip(model_jobs, common.run_driver_parallel(model_lines)):
+            r = nrun.real_api(schema, cfg, doc, False, "normalized")
             dis += 1
             d = nrun.compare(r, m)
             if d:
                 violations.append({"signature": "model-vs-code", "what": "work-list model vs code: " + d,
-                                   "replay": {"schema": common.jval(schema), "document": common.jval(doc)}})
+                                   "replay": {"schema": common.jval(schema), "document": common.jval(doc), "config": common.jval(cfg)}})
     return {"violations": violations, "cases": cases, "nontrivial": cases, "model_cases": dis, "disagreements_checked": dis,
             "samples": samples, "distribution": dict(dist), "exhaustive": thorough,
             "rule": "dependency graphs of default setters: exhaustive on 2 fields (every setter kind x reads subset incl. self-loops x present subsets x orders); "
@@ -209,5 +217,5 @@ def run(ctx):
 
 def replay(rp):
     fields = {k: ((v[0], tuple(v[1])) if v else None) for k, v in rp["fields"].items()}
-    print(check_graph(tuple(rp["order"]), fields, rp["present"])[0])
+    print(check_graph(tuple(rp["order"]), fields, rp["present"], wrap=rp.get("wrap"))[0])
     return 0
